@@ -562,7 +562,283 @@ def gen_world_text(rng, k, features, config="", nfuncs=4, max_depth=3, max_param
     return "\n".join(parts) + "\n", stats
 
 
-def gen_vals(rng, m):
-    params = [abivals.gen(rng, parse(p), edge=rng.random() < 0.2) for p in m["params"]]
-    ret = abivals.gen(rng, parse(m["result"]), edge=rng.random() < 0.2) if m["result"] is not None else None
+def gen_val(rng, t, depth=0, edge=False, handle=None):
+    """value term of type tree t: tools/abivals.py for scalars, own structure choices for containers
+    (occasional large / empty lists, unique and duplicate map keys); `handle(kind)` supplies handles"""
+    if isinstance(t, str):
+        if t in ("own", "borrow") and handle is not None:
+            return handle(t)
+        return abivals.gen(rng, t, depth, edge)
+    k = t[0]
+    d = depth + 1
+    sub = lambda x: gen_val(rng, x, d, edge, handle)
+    if k == "list":
+        if depth == 0 and rng.random() < 0.04 and isinstance(t[1], str):
+            n = rng.choice([200, 1000])
+        else:
+            n = rng.choice([0, 1, 2, 3, 17]) if depth < 2 else rng.choice([0, 1, 2])
+        return "(l" + "".join(" " + sub(t[1]) for _ in range(n)) + ")"
+    if k == "flist":
+        return "(l" + "".join(" " + sub(t[1]) for _ in range(int(t[2]))) + ")"
+    if k == "map":
+        n = rng.choice([0, 1, 2, 4, 9]) if depth < 2 else rng.choice([0, 1, 2])
+        return "(l" + "".join(f" (r {sub(t[1])} {sub(t[2])})" for _ in range(n)) + ")"
+    if k in ("record", "tuple"):
+        return "(r" + "".join(" " + sub(f) for f in t[1:]) + ")"
+    if k == "variant":
+        cs = t[1:]
+        i = rng.choice([0, len(cs) - 1, rng.randrange(len(cs))])
+        return f"(var {i})" if cs[i] == "_" else f"(var {i} {sub(cs[i])})"
+    if k == "option":
+        return "(var 0)" if rng.random() < 0.35 else f"(var 1 {sub(t[1])})"
+    if k == "result":
+        i = rng.randint(0, 1)
+        cc = t[1 + i]
+        return f"(var {i})" if cc == "_" else f"(var {i} {sub(cc)})"
+    return abivals.gen(rng, t, depth, edge)
+
+
+def gen_vals(rng, m, handle=None):
+    edge = rng.random() < 0.2
+    params = [gen_val(rng, parse(p), 0, edge, handle) for p in m["params"]]
+    ret = gen_val(rng, parse(m["result"]), 0, edge, handle) if m["result"] is not None else None
     return params, ret
+
+
+# ---------------------------------------------------------------------------------- monitors
+
+def params_ty(m):
+    return "(tuple" + "".join(" " + p for p in m["params"]) + ")"
+
+
+def vals_term(vals):
+    return "(r" + "".join(" " + v for v in vals) + ")"
+
+
+def value_findings(m, o):
+    """C05 monitor on one call outcome: list of (class, what, detail)"""
+    out = []
+    if "error" in o:
+        return [("call-failed", f"{o['kind']} call did not complete: {o['error'][:200]}", {})]
+    pt = params_ty(m)
+    sent = canon_str(vals_term(o["vals"]), pt)
+    if o["kind"] == "export":
+        if o.get("observed_count") != 1:
+            out.append(("export-user-function-call-count", f"user function behind the export ran {o.get('observed_count')} times", {}))
+        elif canon_str(o["observed"], pt) != sent:
+            out.append(("value-changed:export-args", "arguments sent by the host arrived changed in the Rust implementation",
+                        {"sent": sent, "observed": canon_str(o["observed"], pt)}))
+        if m["result"] is not None:
+            want = canon_str(o["ret"], m["result"])
+            if o.get("lifted") is None:
+                out.append(("value-changed:export-result", "the host traps lifting the export's result", {"returned": want}))
+            elif canon_str(o["lifted"], m["result"]) != want:
+                out.append(("value-changed:export-result", "result returned by the Rust implementation arrived changed at the host",
+                            {"returned": want, "lifted": canon_str(o["lifted"], m["result"])}))
+    else:
+        if o.get("import_events", 0) != 1:
+            out.append(("import-call-count", f"import symbol called {o.get('import_events', 0)} times for one wrapper call", {}))
+            return out
+        if o.get("lifted_args") is None:
+            out.append(("value-changed:import-args", "the host traps lifting the arguments lowered by the guest", {"sent": sent}))
+        elif canon_str(o["lifted_args"], pt) != sent:
+            out.append(("value-changed:import-args", "arguments passed by Rust code arrived changed at the host",
+                        {"sent": sent, "lifted": canon_str(o["lifted_args"], pt)}))
+        if m["result"] is not None:
+            want = canon_str(o["ret"], m["result"])
+            got = canon_str(o["returned"], m["result"]) if o.get("returned") else None
+            if got != want:
+                out.append(("value-changed:import-result", "result sent by the host arrived changed in Rust code",
+                            {"sent": want, "observed": got}))
+    if o.get("unexpected_imports"):
+        out.append(("unexpected-import-call", "the guest called imports the scenario does not expect", {"imports": o["unexpected_imports"]}))
+    return out
+
+
+def nz(blocks):
+    return sorted((a, s, al) for a, s, al in blocks if s > 0)
+
+
+def triples(s):
+    return [] if s in ("-", "") else [tuple(int(x) for x in b.split(":")) for b in s.split(",")]
+
+
+def ledger_findings(m, o):
+    """C06 monitors on one call outcome.  Returns (findings [(class, what, detail)], corr) where corr is
+    the model-vs-implementation comparison of the post-return frees: (impl, model) or None"""
+    out, corr = [], None
+    if "error" in o:
+        return [("call-failed", f"{o['kind']} call did not complete: {o['error'][:200]}", {})], None
+    rep = o["call_report"]
+    errs = list(rep["errs"]) + list((o.get("post_report") or {}).get("errs", []))
+    for e in errs:
+        kind = e.split(":")[0]
+        out.append((f"allocator:{kind}", f"{o['kind']} call: {kind} ({e})", {"error": e}))
+    host = nz(o.get("hostblocks", []))
+    freed_h = sorted((f["addr"], f["size"], f["align"]) for f in rep["frees"] if f["tag"] == "H")
+    if o["kind"] == "export":
+        if freed_h != host:
+            missing = [b for b in host if b not in freed_h]
+            out.append(("host-buffer-not-released" if missing else "host-buffer-released-twice",
+                        "buffers the host allocated for the arguments are not freed exactly once by the time the user function has dropped its arguments",
+                        {"host_blocks": host, "freed": freed_h}))
+        live_g = sorted((a["addr"], a["size"], a["align"]) for a in rep["allocs"] if a["tag"] == "G" and a["live"])
+        want = nz(o.get("result_blocks", []))
+        if live_g != want:
+            out.append(("result-buffers-differ-from-lowering",
+                        "guest blocks live after the export returned are not exactly the buffers reachable from the lowered result",
+                        {"live": live_g, "reachable_from_result": want}))
+        post = o.get("post_report")
+        freed_post = sorted((f["addr"], f["size"], f["align"]) for f in post["frees"]) if post else []
+        if post is not None and o.get("postfrees_model"):
+            pm = o["postfrees_model"]
+            if pm.startswith("ok "):
+                kv = dict(x.split("=", 1) for x in pm[3:].split(" "))
+                corr = (freed_post, nz(triples(kv["freed"])))
+                spec, skip = nz(triples(kv["spec"])), nz(triples(kv["skipflist"]))
+            else:
+                corr = (freed_post, pm)
+                spec = skip = None
+        else:
+            spec = skip = None
+        leaked = [b for b in live_g if b not in freed_post]
+        if post is not None:
+            leaked += [(a["addr"], a["size"], a["align"]) for a in post["allocs"] if a["tag"] == "G" and a["live"]]
+        if leaked:
+            below_flist = spec is not None and sorted(leaked) == sorted(b for b in spec if b not in skip)
+            cls = "dealloc-flist-leak" if below_flist else ("export-result-leak" if post is not None else "export-result-leak-no-post-return")
+            out.append((cls, "blocks allocated for the export's result are still live after cabi_post_* (leak)",
+                        {"leaked": leaked, "post_return_exists": post is not None}))
+        extra = [b for b in freed_post if b not in live_g]
+        if extra:
+            out.append(("post-return-frees-foreign-block", "cabi_post_* freed blocks that the lowering of the result did not allocate", {"blocks": extra}))
+    else:
+        if freed_h != host:
+            missing = [b for b in host if b not in freed_h]
+            out.append(("host-buffer-not-released" if missing else "host-buffer-released-twice",
+                        "buffers the host allocated for the import's result are not freed exactly once by the time the caller dropped the result",
+                        {"host_blocks": host, "freed": freed_h}))
+        live_g = sorted((a["addr"], a["size"], a["align"]) for a in rep["allocs"] if a["tag"] == "G" and a["live"])
+        if live_g:
+            out.append(("import-call-leak", "guest blocks allocated during an import call are still live after the caller dropped arguments and result", {"live": live_g}))
+        dead = [r for r, lv in list(o.get("arg_live", {}).items()) if not lv and r[1] > 0 and (r[0], ) and any(r[0] == b[0] for b in o.get("arg_blocks", []))]
+        if dead:
+            out.append(("import-arg-outside-live-allocation", "a buffer passed to the import is not inside a live allocation while the import runs", {"regions": dead}))
+    return out, corr
+
+
+
+
+# ---------------------------------------------------------------------------------- check skeleton
+
+def load_corpus(path):
+    """corpus file: entries start with a line `== <config> [# comment]`, followed by WIT text whose
+    package is `t:wX` (X replaced by the item index)"""
+    items = []
+    if not os.path.exists(path):
+        return items
+    cur = None
+    for line in open(path):
+        if line.startswith("== "):
+            cfg = line[3:].split("#")[0].strip()
+            cur = [cfg, []]
+            items.append(cur)
+        elif cur is not None and not line.startswith("#"):
+            cur[1].append(line)
+    return [(cfg, "".join(ls)) for cfg, ls in items]
+
+
+def make_items(rng, n, features, corpus, replay_item=None):
+    raw = []
+    if replay_item: raw.append(replay_item)
+    raw += corpus
+    stats = {}
+    for _ in range(n):
+        cfg = random_config(rng)
+        text, st = gen_world_text(rng, "X", features, cfg)
+        for k, v in st.items(): stats[k] = stats.get(k, 0) + v
+        raw.append((cfg, text))
+    items = [(cfg, text.replace("t:wX", f"t:w{k}")) for k, (cfg, text) in enumerate(raw)]
+    return items, stats
+
+
+def prune_batches(keep=12):
+    if not os.path.isdir(BIND): return
+    ds = sorted((os.path.getmtime(os.path.join(BIND, d)), d) for d in os.listdir(BIND))
+    for _, d in ds[:-keep]:
+        shutil.rmtree(os.path.join(BIND, d), ignore_errors=True)
+
+
+def prepare(c):
+    emitter = c.cargo_build("bind-native")
+    host = c.model_exe("m_host")
+    return emitter, host
+
+
+def build_all(c, items, emitter, batch_size=20):
+    """split into batches, build each (dropping items whose Rust does not compile).
+    Returns [(batch, global index map)], dropped {global idx: error}"""
+    out, dropped = [], {}
+    for b0 in range(0, len(items), batch_size):
+        chunk = items[b0:b0 + batch_size]
+        # item indices inside a batch are local; the package names keep the global index
+        name = "b-" + hashlib.sha1(worlds_spec(chunk).encode()).hexdigest()[:12]
+        batch, dr = build_batches(c, name, chunk, emitter)
+        for k, e in dr.items(): dropped[b0 + k] = e
+        if batch is not None:
+            out.append((batch, [b0 + k for k in batch.index_map]))
+    prune_batches()
+    return out, dropped
+
+
+def classify_compile_error(err):
+    """stable class keys of the known ways generated Rust fails to compile"""
+    if "into_bytes" in err: return "rust-does-not-compile:raw-strings-owned-string-lowering"
+    if "cannot move out of type" in err and "non-copy array" in err: return "rust-does-not-compile:fixed-list-non-copy-import-param"
+    return "rust-does-not-compile:other"
+
+
+def check_signatures(c, host, batch):
+    """wit-parser's wasm_signature (as used by the emitter for the raw trampolines) vs the Lean model
+    of it and vs the spec-side 16/1 decisions at pointer width 8"""
+    reqs, impl, model = [], [], []
+    h = Proc([host])
+    for m in batch.manifest:
+        if m["dir"] not in ("export", "import"): continue
+        v = "GuestExport" if m["dir"] == "export" else "GuestImport"
+        ans = h.rq(f"sig|{v}|{P}|{m['func']}")
+        reqs.append(f"{v} {m['func']}")
+        impl.append(f"{m['sig_params']} -> {m['sig_results']} indirect={int(m['indirect_params'])} retptr={int(m['retptr'])} "
+                    f"spec-indirect={int(m['indirect_params'])} spec-retptr={int(m['retptr'])}")
+        model.append(ans or "m_host died")
+    h.close()
+    c.compare("wasm-signature", reqs, impl, model)
+
+
+def run_calls(c, batch, host, rng, per_fn, on_outcome, handle=None):
+    """per function of the batch: per_fn seeded calls; on_outcome(m, o) is called for each.
+    Crashes of the batch binary are reported as outcomes with o['error']."""
+    r = Runner(batch.binary, host)
+    n = 0
+    try:
+        for m in batch.manifest:
+            if m["dir"] not in ("export", "import"): continue
+            if m["kind"] != "free": continue     # resource functions are C07's
+            for _ in range(per_fn):
+                vals, ret = gen_vals(rng, m, handle)
+                try:
+                    o = r.export_call(m, vals, ret) if m["dir"] == "export" else r.import_call(m, vals, ret)
+                except Crash as e:
+                    o = {"key": m["key"], "kind": m["dir"], "vals": vals, "ret": ret, "error": f"batch binary died ({e})"}
+                    r.restart_native()
+                except ValueError as e:
+                    o = {"key": m["key"], "kind": m["dir"], "vals": vals, "ret": ret, "error": f"protocol: {e}"}
+                    r.restart_native()
+                n += 1
+                on_outcome(m, o)
+        v = r.native.rq("VERIFY")
+        if v is not None and v.startswith("ok|") and v[3:]:
+            on_outcome(None, {"verify": v[3:]})
+    finally:
+        r.close()
+    return n
